@@ -23,7 +23,11 @@ SPEC = {
     "props": ["props/C06.v"],
     "corr": ["corr/Noise_corr.v"],
     "build_comp": "noise",
-    "comps": [{"comp": "noise_c06", "n_quick": 40, "n_thorough": 1500}],
+    "comps": [{"comp": "noise_c06", "n_quick": 40, "n_thorough": 1500},
+              # two REAL HandshakeManagers; the responder's crypto/rand index candidates are scripted to collide with a tunnel, a pending
+              # handshake, both, or three times in a row; message 1 is retransmitted until the initiator completes, plus a late duplicate;
+              # code 2 = the agreement predicate on the two hostmap dumps and on data packets sealed by either side
+              {"comp": "noise_mgr06", "n_quick": 40, "n_thorough": 800}],
     "trusted": ["model/Noise.v, model/Machine.v: hand-written mirrors of flynn/noise v1.1.0 state.go (IX, no psk) and handshake/machine.go",
                 "lib/Sym.v: symbolic crypto (free term algebra with DH commutativity)",
                 "connection_state.go newConnectionStateFromResult is exercised only through noiseutil.NewCipherState(Result.EKey/DKey, Result.Cipher)"],
@@ -31,5 +35,6 @@ SPEC = {
                     "DH(a, pub b) = DH(b, pub a)",
                     "every credential of a node announces the public key of the node's private key (honest_keys); one cipher and one curve per "
                     "network (same_suite)",
-                    "the random source never fails"],
+                    "the random source never fails",
+                    "noise_mgr06: generateIndex reads exactly 4 bytes from crypto/rand.Reader per candidate (the harness scripts those reads)"],
 }
